@@ -427,3 +427,44 @@ template <class T, size_t M, size_t K, size_t N> void op_einsum_expr(Ctx &c) {
 }
 } // namespace memsim
 
+namespace memsim {
+// noalias() snapshot paths: they copy the parent tensor into an automatic object -- no allocation, no access outside the operands
+template <class T, size_t N> void op_noalias1(Ctx &c) {
+    auto &a = c.own<Tensor<T, N>>(0, true); auto &it = c.own<Tensor<int, N>>(1, false); auto &it2 = c.own<Tensor<int, N>>(2, false); auto &m = c.own<Tensor<bool, N>>(3, false);
+    for (size_t i = 0; i < N; ++i) { it.data()[i] = (int)i; it2.data()[i] = (int)(N - 1 - i); m.data()[i] = (i % 3) != 0; }
+    uint32_t w = c.p1() % 5;
+    c.run([&] {
+        switch (w) {
+        case 0: a(seq(1, (int)N)).noalias() = a(seq(0, (int)N - 1)); a(seq(0, (int)N - 1)).noalias() += a(seq(1, (int)N)) * (T)2; break;
+        case 1: a(fseq<1, N>()).noalias() = a(fseq<0, N - 1>()); a(fseq<0, N - 1>()).noalias() -= a(fseq<1, N>()) + (T)1; break;
+        case 2: a(it).noalias() = a(it2); a(it2).noalias() += a(it) + (T)1; break;
+        case 3: a(m).noalias() = a(it2); a(m).noalias() += a(it2) + (T)1; break;
+        default: a(fseq<1, N>()).noalias() *= a(fseq<0, N - 1>()); a(seq(0, (int)N - 1)).noalias() *= a(seq(1, (int)N)); break;
+        }
+    });
+}
+template <class T, size_t M, size_t N> void op_noalias2(Ctx &c) {
+    auto &a = c.own<Tensor<T, M, N>>(0, true);
+    uint32_t w = c.p1() % 4;
+    c.run([&] {
+        switch (w) {
+        case 0: a(seq(1, (int)M), seq(0, (int)N)).noalias() = a(seq(0, (int)M - 1), seq(0, (int)N)); break;
+        case 1: a(fseq<1, M>(), fall).noalias() += a(fseq<0, M - 1>(), fall); break;
+        case 2: a(seq(0, (int)M), seq(1, (int)N)).noalias() -= a(seq(0, (int)M), seq(0, (int)N - 1)) * (T)2; break;
+        default: a(fall, fseq<0, N - 1>()).noalias() = a(fall, fseq<1, N>()) + (T)1; break;
+        }
+    });
+}
+template <class T, size_t M, size_t N, size_t P> void op_noalias3(Ctx &c) {
+    auto &a = c.own<Tensor<T, M, N, P>>(0, true);
+    uint32_t w = c.p1() % 3;
+    c.run([&] {
+        switch (w) {
+        case 0: a(seq(0, (int)M), seq(0, (int)N), seq(1, (int)P)).noalias() = a(seq(0, (int)M), seq(0, (int)N), seq(0, (int)P - 1)); break;
+        case 1: a(fall, fall, fseq<1, P>()).noalias() += a(fall, fall, fseq<0, P - 1>()); break;
+        default: a(seq(0, (int)M), seq(0, (int)N), seq(1, (int)P)).noalias() -= a(seq(0, (int)M), seq(0, (int)N), seq(0, (int)P - 1)) * (T)2; break;
+        }
+    });
+}
+} // namespace memsim
+
